@@ -896,6 +896,30 @@ def smear_verdict(F, g, T):
         return None
     shifts = []
     cur = chain
+    # the same chain as a fold over a literal table of shifts: `[1, 2, 4, ..].iter().fold(x, |acc, s| acc | (acc >> s))`
+    if cur[0] == "call" and (cur[1].endswith("Iterator::fold") or (cur[1].endswith(">::fold") and "Iterator" in cur[1])) and len(cur[2]) == 3:
+        it, init, clo = (peel_casts(a) for a in cur[2])
+        arr = it
+        while arr[0] == "call" and len(arr[2]) == 1 and arr[1].split("::")[-1] in ("iter", "into_iter", "copied", "cloned"):
+            arr = peel_casts(arr[2][0])
+        if not (arr[0] == "agg" and arr[1] == "array" and clo[0] == "agg" and clo[1] in F.fns and F.fns[clo[1]].argc >= 3 and not clo[3]):
+            return None
+        consts = [peel_casts(v) for _, v in arr[3]]
+        if not all(c[0] == "const" and isinstance(c[1], int) for c in consts):
+            return None
+        body = peel_casts(F.fns[clo[1]].origin_local(0))
+        acc, el = ("param", 2), ("param", 3)
+        def is_el(x):
+            x = peel_casts(x)
+            while isinstance(x, tuple) and x and x[0] in ("deref", "cast", "ref") and len(x) > 1:
+                x = peel_casts(x[1])
+            return x == el
+        okb = body[0] == "binop" and body[1] == "BitOr" and any(
+            peel_casts(a) == acc and peel_casts(b)[0] == "binop" and peel_casts(b)[1] in ("Shr", "ShrUnchecked") and peel_casts(peel_casts(b)[2]) == acc and is_el(peel_casts(b)[3])
+            for a, b in ((body[2], body[3]), (body[3], body[2])))
+        if not okb:
+            return None
+        return _smear_judge(F, g, [c[1] for c in consts], init)
     while isinstance(cur, tuple) and cur and cur[0] == "binop" and cur[1] == "BitOr":
         x, y = peel_casts(cur[2]), peel_casts(cur[3])
         step = None
@@ -912,6 +936,10 @@ def smear_verdict(F, g, T):
     if not shifts:
         return None
     shifts.reverse()                             # execution order
+    return _smear_judge(F, g, shifts, cur)
+
+
+def _smear_judge(F, g, shifts, cur):
     base_lb = expr_lb(F, g, cur)
     w = 1
     for s_ in shifts:
